@@ -14,8 +14,12 @@ def build(c):
     return vlib.build(c.dir, "drv_getopt", srcs)
 
 
+# option characters and argument bytes above 0x7f (as plain char they are negative: 0xff is -1, the value of EOF-like sentinels)
+HIGH = ["-\xff", "-a\xffb", "-\xffa", "-b\xff", "-f\xff", "-\xff\xff", "--foo=\xff", "--\xff", "\xff", "-\x80", "-a\x80", "-\xfe", "--b\xff"]
+
+
 def tok(s):
-    return "-" if s == "" else s.encode().hex()
+    return "-" if s == "" else s.encode("latin-1").hex()
 
 
 def line(t, argv, abandon=-1):
@@ -49,17 +53,25 @@ def main(c):
     extra = []
     for _ in range(c.pick(6000, 150000)):
         t = rnd.choice([1, 2, 3])
-        argv = [rnd.choice(TOKENS) for _ in range(rnd.randint(0, 8))]
+        argv = [rnd.choice(TOKENS) if rnd.random() < 0.93 else rnd.choice(HIGH) for _ in range(rnd.randint(0, 8))]
         ab = rnd.choice([-1, -1, -1, 0, 1, 2, 3])
         if rnd.random() < 0.03:
             extra.append("fresh")
         extra.append(line(t, argv, ab))
+    # every pair (high-byte token, ordinary token) in both orders, for each table
+    for t in (1, 2, 3):
+        for h in HIGH:
+            extra.append(line(t, [h]))
+            for o in ("-a", "-b", "-f", "--foo", "op", "-ab"):
+                extra.append(line(t, [h, o]))
+                extra.append(line(t, [o, h]))
+                extra.append(line(t, [o, h, o]))
     progs = chunk_programs(lines, rnd) + chunk_programs(extra, rnd)
     vlib.conformance(c, exe, progs, SD, "GetoptTrace", "GetoptTrace.cfg", "getopt", procs=12, shards=12, nontrivial=lambda ex: len(ex) > 2)
     c.cov["parses"] = len(lines) + sum(1 for x in extra if x != "fresh")
     c.cov["rule"] = ("every argument vector of length <= 3 over a 33-token alphabet (registered/unregistered shorts, packs with an argument-taking option in the middle "
                      "and at the end, long options that are prefixes of one another, '=' forms, '-', '--', '', operands) for three option tables is enumerated by TLC "
-                     "and parsed by the real getopt after an optreset that follows a different vector; plus random vectors to length 8 over 40 tokens, parses abandoned "
+                     "and parsed by the real getopt after an optreset that follows a different vector; plus random vectors to length 8 over 54 tokens and 13 more with bytes above 0x7f (0xff, 0x80, 0xfe as option characters, in packs, as arguments), parses abandoned "
                      "after 0..3 options, and parses that are the first of a fresh process; every getopt() call is validated by TLC against the grammar; "
                      "an execution = 400 parses; non-trivial = at least one parse; distinct = SHA-256 of program")
     c.cov["trusted_base"] = ["TLC", "gcc ASan/UBSan (exact-size argv strings)"]
